@@ -104,11 +104,14 @@ def run(out, tier, seed):
     nrand = 300 if tier == "quick" else 6000
     for _ in range(nrand):
         cases.append({"id": len(cases), "src": "random", "ops": random_history(rng, rng.randint(5, 22))})
-    # every history with BaseOverlay/Immediate handlers; a third of them also with probing() objects entered and left by hand
+    # every history with BaseOverlay/Immediate handlers; a third of them also with probing() objects entered and left by hand,
+    # a fifth with blocks forked from one Overlay instance (Overlay.tapping)
     for c in list(cases):
         c["mode"] = "overlay"
         if c["src"] != "tlc-exhaustive" or rng.random() < 0.34:
             cases.append(dict(c, id=len(cases), mode="probe"))
+        if c["src"] != "tlc-exhaustive" or rng.random() < 0.2:
+            cases.append(dict(c, id=len(cases), mode="api"))
     traces = L.run_histories(cases, work, driver="harness.drivers.gen_driver")
     fails, results = L.validate(traces, work, spec="TraceGen")
     for i, r in enumerate(results):
